@@ -51,6 +51,8 @@ var lgTable = []lgEntry{
 	{Rule: "L1", Func: "tensor.(StdEng).Sum", Site: "$r.reduce(", Goal: "!(%ok && %v.IsMaterializable())", OrStep: ".Materialize()", Props: []string{"C08"}, Why: "views are materialised before the raw reducers run"},
 	{Rule: "L1", Func: "tensor.(StdEng).Min", Site: "$r.reduce(", Goal: "!(%ok && %v.IsMaterializable())", OrStep: ".Materialize()", Props: []string{"C08"}, Why: "views are materialised before the raw reducers run"},
 	{Rule: "L1", Func: "tensor.(StdEng).Max", Site: "$r.reduce(", Goal: "!(%ok && %v.IsMaterializable())", OrStep: ".Materialize()", Props: []string{"C08"}, Why: "views are materialised before the raw reducers run"},
+	{Rule: "L1", Func: "tensor.(StdEng).reduce", Site: "$monotonicMethod(", Goal: "(((%monotonic && %incr1) && ($a.Dims() == len($along))) || (0 == len($along)))", Props: []string{"C08"}, Why: "the whole-tensor fold answers a reduction only when every axis is reduced (all axes listed, or none given): for any other request the axes matter, whatever the shape"},
+	{Rule: "L1", Func: "tensor.handleReuse", Site: "return ", NotAfter: "errors.", Goal: "(!($reuse != nil) || !$safe)", OrStep: "reuseCheckShape($ret0, $expectedShape)", Props: []string{"C09", "C07"}, Why: "a reuse destination is normalised by reuseCheckShape on every accepting path (strides reset, pending lazy transpose and view marker dropped) - also when its shape already is the expected one"},
 	{Rule: "L1", Func: "tensor.(StdEng).prepReduce", Site: "return ", NotAfter: "$ret4 = errors.", Goal: "(%ok && !%useIter)", Props: []string{"C08"}, Why: "iterator-requiring inputs are refused, not folded from raw storage"},
 	{Rule: "L3", Func: "tensor.(StdEng).OptimizedReduce", Site: "$r.E.ReduceFirst(", Goal: "!%at.DataOrder().IsColMajor()", Props: []string{"C08", "C16"}, Why: "the first-axis kernel assumes row-major storage"},
 	{Rule: "L3", Func: "tensor.(StdEng).OptimizedReduce", Site: "$r.E.ReduceLast(", Goal: "!%at.DataOrder().IsColMajor()", Props: []string{"C08", "C16"}, Why: "the last-axis kernel assumes row-major storage"},
